@@ -79,18 +79,12 @@ def readOk (c : Case) (t0 : Nat) (pend : List Piece) (n : Nat) (T : Option Nat) 
         | .hang => T.isNone && pend.isEmpty && c.gone.isNone && decide (o.t1 = t0)
         | _ => false)
 
-/-- what `os.write` is scripted to accept of `len` bytes -/
-def accepted (accept : List Nat) (len : Nat) : Nat :=
-  match accept with
-  | [] => len
-  | a :: _ => min a len
-
 /-- one `write(buf)` called at `t0` -/
 def writeOk (c : Case) (t0 : Nat) (accept : List Nat) (buf : Bytes) (o : OpObs) : Bool :=
   if closedAt c.gone t0 then
-    o.sel.isEmpty && decide (o.t1 = t0) && o.out == .closed
+    o.sel.isEmpty && decide (o.t1 = t0) && decide (o.out = .closed)
   else
-    o.sel == [c.wguard]
+    decide (o.sel = [c.wguard])
     && (match o.out with
         | .wtimeout =>
           decide (o.t1 = t0 + c.wguard)
